@@ -443,4 +443,34 @@ theorem tie_routes : routes.take 10 =
     routes.contains "/untrash/{hash:[0-9a-f]{32}}" = true ∧
     (routes.drop 16).take 2 = ["/{hash:[0-9a-f]{32}}", "TOUCH"] := by decide
 
+/-! ### several volumes (Model/C02_MV.lean) -/
+
+/-- `writables` = the mounts that are not ReadOnly; every mount is readable; all three lists in the
+same (mount) order (Model.MVCfg.writables) -/
+theorem tie_mkVolMgr :
+    mkVolMgrAppends = ["vm.mounts = append(vm.mounts, mnt)", "vm.readables = append(vm.readables, mnt)",
+      "vm.writables = append(vm.writables, mnt)"] ∧
+    mkVolMgrConds.getLast? = some "if !mnt.KeepMount.ReadOnly" := by decide
+
+/-- NextWritable: round robin over `writables` (Model.putBlockMV: `ws[next % ws.length]?`, nil when empty) -/
+theorem tie_nextWritableText : nextWritableText =
+  "{ if len(vm.writables) == 0 { return nil } i := atomic.AddUint32(&vm.counter, 1) return vm.writables[i%uint32(len(vm.writables))] }" := rfl
+
+theorem tie_allWritableReadable : allWritableText = "{ return vm.writables }" ∧ allReadableText = "{ return vm.readables }" :=
+  ⟨rfl, rfl⟩
+
+/-- GetBlock: every readable volume in order; an error or a checksum mismatch ⇒ next volume; the first
+good copy is returned (Model.getBlockOver) -/
+theorem tie_getBlockSkel : getBlockSkel =
+  ["call volmgr.AllReadable", "for {", "call vol.Get => size,err", "case {", "return", "}", "case {", "}",
+   "if err != nil {", "if !os.IsNotExist(err) {", "}", "if err == VolumeBusyError {", "}", "continue", "}",
+   "call md5.Sum", "if filehash != hash {", "continue", "}", "if errorToCaller == DiskHashError {", "}",
+   "return", "}", "return"] := by decide
+
+/-- GET /index: IndexTo of every readable mount, one after the other (Model.indexMV) -/
+theorem tie_handleIndexSkel : handleIndexSkel =
+  ["if !rtr.isSystemAuth(GetAPIToken(req)) {", "return", "}", "if prefix == \"\" {", "}", "if uuid == \"\" {",
+   "call rtr.volmgr.AllReadable => vols", "} else {", "call rtr.volmgr.Lookup => mnt", "if mnt == nil {", "return",
+   "} else {", "}", "}", "for {", "call v.IndexTo => err", "if err != nil {", "return", "}", "}"] := by decide
+
 end ArvVerif.Tie.C02
